@@ -201,16 +201,27 @@ impl PoolableStream for StubStream {
 #[derive(Clone)]
 pub struct StubTransport {
     alpn_h2: bool,
+    /// the connect attempt fails (after one Pending): the caller must get the error, and nothing may
+    /// touch the finished connect future again
+    fail: bool,
 }
 impl Service<http::request::Parts> for StubTransport {
     type Response = StubStream;
     type Error = StubErr;
-    type Future = std::future::Ready<Result<StubStream, StubErr>>;
+    type Future = Pin<Box<dyn Future<Output = Result<StubStream, StubErr>> + Send>>;
     fn poll_ready(&mut self, _: &mut Context<'_>) -> Poll<Result<(), StubErr>> {
         Poll::Ready(Ok(()))
     }
     fn call(&mut self, _req: http::request::Parts) -> Self::Future {
-        std::future::ready(Ok(StubStream { alpn_h2: self.alpn_h2 }))
+        let (alpn_h2, fail) = (self.alpn_h2, self.fail);
+        // an `async` block: polling it after completion panics, as most real transports do
+        Box::pin(async move {
+            if fail {
+                tokio::task::yield_now().await;
+                return Err(StubErr("scripted connect failure"));
+            }
+            Ok(StubStream { alpn_h2 })
+        })
     }
 }
 
@@ -553,7 +564,7 @@ impl Engine for ReqEngine {
                 .layer(Http1ChecksLayer::new())
                 .service(rec.clone());
             let mut svc: ConnectionPoolService<StubTransport, StubProtocol, _, B> =
-                ConnectionPoolService::new(StubTransport { alpn_h2: c.conn_h2 }, StubProtocol, inner, PoolConfig::default());
+                ConnectionPoolService::new(StubTransport { alpn_h2: c.conn_h2, fail: c.body % 7 == 3 }, StubProtocol, inner, PoolConfig::default());
             if !pooled {
                 svc = svc.without_pool();
             }
@@ -587,11 +598,15 @@ impl Engine for ReqEngine {
                 .layer(Http2ChecksLayer::new())
                 .layer(Http1ChecksLayer::new())
                 .service(rec.clone());
-            let mut svc = ConnectorService::new(inner, StubTransport { alpn_h2: c.conn_h2 }, StubProtocol);
+            let mut svc = ConnectorService::new(inner, StubTransport { alpn_h2: c.conn_h2, fail: c.body % 7 == 3 }, StubProtocol);
             let req = c.build().unwrap();
             let _ = std::panic::catch_unwind(std::panic::AssertUnwindSafe(|| rt.block_on(async { svc.ready().await?.call(req).await })));
             lib_panics(&mut rep, "connector-service", c);
+            let expect_h2 = c.version() == http::Version::HTTP_2 || c.conn_h2;
             for s in rec.0.lock().unwrap().iter() {
+                if s.conn_h2 != expect_h2 {
+                    rep.violate("C13/wrong-protocol-selected", format!("[connector-service] request version {:?}, ALPN h2 {}: connection is HTTP/{}", c.version(), c.conn_h2, if s.conn_h2 { 2 } else { 1 }));
+                }
                 check_seen(c, s, "connector-service", &mut rep);
             }
         }
